@@ -185,6 +185,22 @@ def c11():
             if an2.anonymize(s) != r:
                 fail("C11.keyed", {"salt": salt, "as_number": s}, "replacement depends on more than salt and number",
                      "_generate_as_number_replacement")
+    # a listed number whose replacement is itself listed: every number is replaced once, by its own replacement
+    for salt in salts[:4]:
+        for n in ("64512", "65000", "70000", "4200000001", "100"):
+            r = sir.AsNumberAnonymizer([n], salt).anonymize(n)
+            if r == n:
+                continue
+            rr = sir.AsNumberAnonymizer([r], salt).anonymize(r)
+            for lst in ([n, r], [r, n]):
+                anon = sir.AsNumberAnonymizer(list(lst), salt)
+                line = "router bgp %s\n neighbor 1.1.1.1 remote-as %s\n" % (n, r)
+                note((salt, "chain", n, tuple(lst)))
+                got = sir.anonymize_as_numbers(anon, line)
+                exp = "router bgp %s\n neighbor 1.1.1.1 remote-as %s\n" % (r, rr)
+                if got != exp:
+                    fail("C11.chain", {"salt": salt, "listed": lst, "line": line, "got": got, "expected": exp},
+                         "a replacement was replaced again / depends on the rest of the list", "anonymize_as_numbers")
     # line level: standalone vs embedded numbers; numbers that are prefixes of each other
     listed = ["65000", "650", "123", "12345", "4200000000"]
     an = sir.AsNumberAnonymizer(listed, "salt")
@@ -263,7 +279,7 @@ CHECKS = {"C06": [c06], "C11": [c11], "C18": [c18]}
 BOUNDS = {
     "C06": "all strings of length <= 5 (quick) / 6 (thorough) over {1,2,5,.,:,/,a,space}; 35 address spellings x 12 delimiters "
            "x 3 positions; all single-character edits of the spellings; real two-pass substitution vs an independent token-level reference",
-    "C11": "block boundaries +-2 and 50/2000 random numbers x 8/50 salts; ~10k generated lines (standalone / embedded / prefix-of-each-other numbers)",
+    "C11": "block boundaries +-2 and 50/2000 random numbers x 8/50 salts; 4 salts x 5 numbers x both list orders with the replacement itself listed; ~10k generated lines (standalone / embedded / prefix-of-each-other numbers)",
     "C18": "72 salts (65 alphabet characters, None, empty, non-alphabet) x all 256 single characters (+ pairs, 6/200 random long plaintexts); "
            "~300/5000 malformed strings",
 }
